@@ -342,6 +342,16 @@ def verify_sig(world, pool, tier, rng, provider="openssl"):
                 emit(msg + b"." + K.b64u(raw + bytes(z)).encode(), "sig-zero-suffix", False)
             if len(raw) > 2 and raw[0] == 0 and raw[half] == 0:
                 emit(msg + b"." + K.b64u(raw[1:half] + raw[half + 1:]).encode(), "sig-zero-stripped-halves", False)
+            # an ECDSA signature in the ASN.1 form other ecosystems use (SEQUENCE { INTEGER r, INTEGER s }): not the JWS form
+            if alg.startswith("ES") and len(raw) % 2 == 0:
+                def _der_int(b_):
+                    b_ = b_.lstrip(b"\x00") or b"\x00"
+                    if b_[0] & 0x80:
+                        b_ = b"\x00" + b_
+                    return b"\x02" + bytes([len(b_)]) + b_
+                body_ = _der_int(raw[:half]) + _der_int(raw[half:])
+                der_ = b"\x30" + (bytes([len(body_)]) if len(body_) < 128 else b"\x81" + bytes([len(body_)])) + body_
+                emit(msg + b"." + K.b64u(der_).encode(), "sig-asn1-der-form", False)
             # text malleability (same decoded bytes): outside C01 for public-key algs, must fail for HMAC
             alt = sig.replace(b"-", b"+").replace(b"_", b"/")
             if alt != sig:
@@ -747,6 +757,30 @@ def strength(world, pool, tier, rng, extra_keys):
             tok = msg + b"." + (sig if sig is not None else b"AAAA")
             metas.append((len(world.ops), {"kind": "verify", "key": name, "bits": key.bits, "alg": alg, "may_accept": ok, "must_accept": ok}))
             world.op("ck 0 verify " + hx(tok), tag="verify")
+    # a keyring that is loaded into more than once: a weak key arriving under the kid (and type) of a strong one that is
+    # already there -- in either order -- is still a weak key, whichever item the application ends up holding
+    strong = K.Key("oct", k=bytes(rng.randrange(256) for _ in range(32)), bits=256)
+    weak = K.Key("oct", k=bytes(rng.randrange(256) for _ in range(16)), bits=128)
+    pairs = [("oct", strong, weak, "HS256")]
+    if "rsa1024" in extra_keys and "rsa2048" in pool.keys:
+        pairs.append(("rsa", pool.keys["rsa2048"], extra_keys["rsa1024"], "RS256"))
+        pool.keys.setdefault("rsa1024", extra_keys["rsa1024"])
+    for kind, ks, kw, alg in pairs:
+        for order in ((ks, kw), (kw, ks)):
+            st = fresh_set()
+            its = [world.add_key(st, k_, private=True, alg_attr=None, extra={"kid": "rotating"}) for k_ in order]
+            msg = seg({"alg": alg, "kid": "rotating"}) + b"." + seg({"k": "rotation"})
+            if kind == "oct":
+                tok_w = msg + b"." + hs_sig(K.ALG_ORD[alg], kw.k, msg)
+            else:
+                sgw = pool.sign("rsa1024", alg, msg)
+                tok_w = msg + b"." + (sgw if sgw else b"AAAA")
+            for idx in (0, 1):
+                world.op("ck 0 new", tag="cfg")
+                world.op("ck 0 setkey %d %d %d" % (K.ALG_ORD[alg], st, idx), tag="cfg")
+                metas.append((len(world.ops), {"kind": "verify", "key": "%s weak key loaded %s a strong one with the same kid, item %d" % (
+                    kind, "after" if order[0] is ks else "before", idx), "alg": alg, "may_accept": False, "must_accept": False}))
+                world.op("ck 0 verify " + hx(tok_w), tag="verify")
     return metas
 
 
@@ -1467,10 +1501,18 @@ def builder_suite(world, pool, tier, rng):
             desc.append("%s.%s=%s:%r" % ("h" if hdr else "c", name.decode(), ty, raw if isinstance(raw, str) else raw.decode("utf-8", "replace")))
         now = clocks[ci % len(clocks)]
         world.op("clock %d" % now, tag="cfg")
+        if ci % 3 == 0:
+            # a token has ONE issue time: with the clock moving on at every reading, iat / nbf / exp still belong together
+            world.op("bl 0 offset exp %d" % rng.choice([1, 60, 3600]), tag="cfg")
+            world.op("bl 0 offset nbf %d" % rng.choice([1, 5]), tag="cfg")
+            b.exp_off, b.nbf_off = int(world.ops[-2].ex.split()[-1]), int(world.ops[-1].ex.split()[-1])
+            world.op("clocktick 1", "echo", cmp=False, tag="cfg")
         eh, ep = b.expected(now, None)
         metas.append((len(world.ops), {"kind": "gen", "hdr": JL.jenc(eh), "pay": JL.jenc(ep), "alg": b.alg, "now": now,
-                                       "seq": "content: " + " / ".join(desc)[:200], "prog": None}))
+                                       "seq": "content: " + " / ".join(desc)[:200] + (" [ticking clock]" if ci % 3 == 0 else ""), "prog": None}))
         world.op("bl 0 gen", tag="gen")
+        if ci % 3 == 0:
+            world.op("clocktick 0", "echo", cmp=False, tag="cfg")
     # signing with a public-only key is refused
     pub = world.add_key(71, pool.keys["p256"], private=False, alg_attr="ES256")
     world.op("bl 0 new", tag="cfg")
@@ -1563,7 +1605,10 @@ def roundtrip_suite(world, pool, tier, rng):
         poison = {"bad_tok": seg({"alg": "RS256"}) + b"." + seg({}) + b"." + K.b64u(bytes(rng.randrange(256) for _ in range(256))).encode(),
                   "bad_jwks": json.dumps({"keys": [{"kty": "EC", "crv": "P-256", "x": K.b64u(bytes([1] * 32)), "y": K.b64u(bytes([2] * 32))},
                                                    {"kty": "RSA", "n": "AQAB", "e": "AA"}]}).encode()}
-    for name, key in pool.keys.items():
+    # an RSA modulus whose bit length is not a multiple of 8 (signature length is ceil(bits/8) octets)
+    odd = dict(pool.keys)
+    odd["rsa2050"] = K.gen_key("rsa", 2050, world.ctx.scratch)
+    for name, key in odd.items():
         priv = world.add_key(s, key, private=True, alg_attr=None)
         pub = world.add_key(s + 1, key, private=(key.kind == "oct"), alg_attr=None)
         s += 2
@@ -1871,8 +1916,15 @@ def jwk_shapes_suite(world, pool, tier, rng):
                         ("nested-set", json.dumps({"keys": [{"keys": some[:1]}]}).encode()), ("trailing", b"{} x"), ("dup-kty", b'{"kty":"oct","kty":"RSA","k":"AAAA"}'),
                         ("nul-inside", b'{"kty":"oct","k":"AAAA"}\x00{"x'), ("nul-in-string", b'{"kty":"oct\\u0000","k":"AAAA"}'), ("bom", b'\xef\xbb\xbf{}'),
                         ("deep", b"[" * 3000 + b"]" * 3000), ("bigint", b'{"kty":99999999999999999999}'), ("kty-case", b'{"kty":"rsa"}'),
-                        ("kty-space", b'{"kty":"RSA "}')]:
+                        ("kty-space", b'{"kty":"RSA "}'),
+                        # rejected text that would be dangerous as a printf format (parse errors quote the input)
+                        ("percent-s", b'"%s%s%s%s%s%s%s%s%s%s'), ("percent-n", b'{"a":%n%n%n%n}'), ("percent-n-str", b'"%n%n%n%n%n%n%n%n%n'),
+                        ("percent-n-str2", b'{"kty": "%n%n%n%n%n%n%n%n%n'), ("percent-star", b'"%*d%*d%*d%*d%*d%s'), ("percent-wide", b'"%999999999d%s%n'), ("percent-lit", b'100%% legit'),
+                        ("percent-kty", b'{"kty":"%s%s%s%n"}'), ("percent-line2", b'{"kty":"oct",\n\n "k":%s%s%s%s%s%s}')]:
         docs.append((label, text, "strn"))
+        if label.startswith("percent"):
+            for via in ("str", "create", "fp", "file"):
+                docs.append((label + ":" + via, text, via))
     for tname, tv in JSON_TYPES + [("emptyarr", []), ("mixed", [some[0], 5, None, "x", {}, some[1]])]:
         docs.append(("keys=" + tname, json.dumps({"keys": tv}).encode(), "strn"))
     for n in (0, 1, 2, 10, 50):
@@ -1959,6 +2011,10 @@ def jwk_import_suite(world, pool, tier, rng):
     keys_ = [(k, K.gen_key(*k, workdir=world.ctx.scratch)) for k in specs for _ in range(4 if thorough and k[0] != "rsa" else 1)]
     for n in ([1, 2, 16, 31, 32, 33, 64, 100, 255, 256, 512] if thorough else [1, 16, 32, 64, 512]):
         keys_.append((("oct", n), K.Key("oct", k=bytes(rng.randrange(256) for _ in range(n)), bits=8 * n)))
+    # octet strings are not numbers: leading and trailing zero octets are key material
+    for kb in (b"\x00", b"\x00\x00\x00", b"A\x00", b"\x00A", bytes(rng.randrange(1, 256) for _ in range(31)) + b"\x00", b"\x00" * 32,
+               bytes(rng.randrange(1, 256) for _ in range(99)) + b"\x00", b"\x00" + bytes(rng.randrange(1, 256) for _ in range(63))):
+        keys_.append((("oct", "zeros-%d" % len(kb)), K.Key("oct", k=kb, bits=8 * len(kb))))
     s = 1000
     OPS = {"sign": 1, "verify": 2, "encrypt": 4, "decrypt": 8, "wrapKey": 16, "unwrapKey": 32, "deriveKey": 64, "deriveBits": 128}
     # things that fail inside the crypto library shortly before a good key is imported: what an import makes of a
